@@ -306,7 +306,17 @@ def enum_builders(tier):
             yield {"builder": "multisig_script_pubkey", "args": {"m": m, "pks": pks}}
             yield {"builder": "p2sh_multisig_script_pubkey", "args": {"m": m, "pks": pks}}
     step = 1 if tier == "thorough" else 7
-    lens = sorted(set(list(range(1, 601, step)) + [1, 74, 75, 76, 77, 254, 255, 256, 257, 519, 520, 521, 599, 600]))
+    # 20, 32, 33, 64, 65: script lengths that coincide with the size of a hash or a public key (in every tier)
+    lens = sorted(set(list(range(1, 601, step)) + [1, 20, 32, 33, 64, 65, 74, 75, 76, 77, 254, 255, 256, 257, 519, 520, 521, 599, 600]))
+    G33 = "0279be667ef9dcbbac55a06295ce870b07029bfcdb2dce28d959f2815b16f81798"
+    G65 = "0479be667ef9dcbbac55a06295ce870b07029bfcdb2dce28d959f2815b16f81798483ada7726a3c4655da4fbfc0e1108a8fd17b448a68554199c47d08ffb10d4b8"
+    for rs in (G33, G65, G33[2:], "00" * 20, "20" * 32, "0a" + "11" * 31 + "0a"):
+        # a redeem / witness script whose bytes are a valid public key, an x coordinate, zeros, whitespace-framed
+        yield {"builder": "p2sh_script_sig", "args": {"sigs": ["R71:30"], "redeem": rs}}
+        yield {"builder": "p2sh_p2wpkh_script_sig", "args": {"redeem": rs}}
+        yield {"builder": "p2sh_p2wsh_script_sig", "args": {"redeem": rs}}
+        yield {"builder": "p2sh_p2wsh_script_pubkey", "args": {"ws": rs, "v": 0}}
+        yield {"builder": "null_data_script_pubkey", "args": {"data": rs}}
     for n in lens:
         rs = f"R{n}:51ae"
         ns = n % 4
